@@ -1,3 +1,164 @@
 import B6.Driver.Common
-/-! Driver for C06 — stub (the check for this property is not built yet). -/
-def main : IO Unit := B6.Driver.run { σ := Unit, init := (), step := fun s _ _ => (s, .bad) }
+import B6.Model.Search
+/-!
+Driver for C06.  One case = one index, then any number of (query, call sequence) blocks.
+
+ops (tokens are written with a leading `'` so that the empty token/prefix is a word; values are naturals):
+  `index <array|tree> 'tok ( v v v ) 'tok ( ) …`   answer `ok`         tokens and values in increasing order
+  `query <q>`                                       answer `ok`         q ::= ( e ) | ( a 'tok ) | ( u q* ) | ( i q* )
+                                                                              | ( r <begin> <end> q ) | ( p 'prefix )
+  `next`                                            answer `true <v>` | `false` | `panic`
+  `adv <k>`                                         answer `true <v>` | `false` | `panic`
+
+Verdict of a call: the implementation's answer must equal the **spec cursor's** answer over `denote q`
+(`propfail next|advance` otherwise); if it does but the model iterator says something else: `diff`.
+For a query outside the property's domain (an intersection without children, which panics in Go) only the
+model is compared.  The harness stops a call sequence at the first `false`.
+-/
+open B6.Driver B6.Spec.Cursor B6.Spec.SearchQuery B6.Model.Search
+namespace B6.Driver.C06
+
+def parseTok (w : String) : Option Token :=
+  match w.toList with
+  | '\'' :: cs => some cs
+  | _ => none
+
+/-- `'tok ( v v ) 'tok ( ) …` -/
+partial def parseLists (ws : List String) (acc : List (Token × List Nat)) : Option (List (Token × List Nat)) :=
+  match ws with
+  | [] => some acc.reverse
+  | t :: "(" :: rest =>
+    match parseTok t with
+    | none => none
+    | some tok =>
+      let vals := rest.takeWhile (· ≠ ")")
+      match rest.dropWhile (· ≠ ")") with
+      | ")" :: rest' =>
+        match vals.mapM String.toNat? with
+        | some vs => parseLists rest' ((tok, vs) :: acc)
+        | none => none
+      | _ => none
+  | _ => none
+
+mutual
+partial def parseQuery (ws : List String) : Option (SQuery × List String) :=
+  match ws with
+  | "(" :: "e" :: ")" :: rest => some (.empty, rest)
+  | "(" :: "a" :: t :: ")" :: rest => (parseTok t).map fun tok => (.all tok, rest)
+  | "(" :: "p" :: t :: ")" :: rest => (parseTok t).map fun tok => (.tokenPrefix tok, rest)
+  | "(" :: "u" :: rest => (parseQueries rest []).map fun (qs, rest') => (.union qs, rest')
+  | "(" :: "i" :: rest => (parseQueries rest []).map fun (qs, rest') => (.inter qs, rest')
+  | "(" :: "r" :: b :: e :: rest =>
+    match b.toNat?, e.toNat?, parseQuery rest with
+    | some b, some e, some (q, ")" :: rest') => some (.keyRange b e q, rest')
+    | _, _, _ => none
+  | _ => none
+partial def parseQueries (ws : List String) (acc : List SQuery) : Option (List SQuery × List String) :=
+  match ws with
+  | ")" :: rest => some (acc.reverse, rest)
+  | _ =>
+    match parseQuery ws with
+    | some (q, rest) => parseQueries rest (q :: acc)
+    | none => none
+end
+
+def validB (ix : Index) : Bool :=
+  decide ((ix.lists.map (·.1)).Pairwise (· < ·)) && ix.lists.all (fun e => decide (StrictSorted e.2))
+
+mutual
+def wfB : SQuery → Bool
+  | .empty => true
+  | .all _ => true
+  | .union qs => wfListB qs
+  | .inter qs => !qs.isEmpty && wfListB qs
+  | .keyRange _ _ q => wfB q
+  | .tokenPrefix _ => true
+def wfListB : List SQuery → Bool
+  | [] => true
+  | q :: qs => wfB q && wfListB qs
+end
+
+structure Run where
+  it : Iter
+  d : Nat
+  modelOk : Bool
+  spec : Option Cursor       -- `none`: the query is outside the property's domain
+  done : Bool
+
+structure St where
+  ix : Option Index := none
+  fuel : Nat := 0
+  run : Option Run := none
+
+def renderRes (o : IterOps Iter) : Res Iter → String
+  | .ok (true, it) => match o.value it with | some v => s!"true {v}" | none => "true ?"
+  | .ok (false, _) => "false"
+  | .error .panic => "panic"
+  | .error .fuel => "fuel"
+
+def renderSpec (r : Bool × Cursor) : String :=
+  if r.1 then (match r.2.cur with | some v => s!"true {v}" | none => "true ?") else "false"
+
+/-- put the spec cursor on `v` (after a disagreement), if `v` is in the list -/
+def resyncSpec (c : Cursor) (v : Nat) : Cursor :=
+  if c.xs.contains v then ⟨c.xs.filter (· ≤ v), c.xs.filter (· > v)⟩ else c
+
+def stepCall (st : St) (r : Run) (call : Call) (impl : String) : St × Verdict :=
+  if r.done then (st, .bad) else
+  let o := ops st.fuel r.d
+  let mres := match call with | .next => o.next r.it | .advance k => o.advance k r.it
+  let mans := renderRes o mres
+  let it' := match mres with | .ok (_, it) => it | .error _ => r.it
+  let clause := match call with | .next => "next" | .advance _ => "advance"
+  let implDone := impl != "true" && !impl.startsWith "true "
+  match r.spec with
+  | none =>
+    let v := if !r.modelOk || impl == mans then Verdict.ok else .diff mans
+    ({ st with run := some { r with it := it', done := implDone, modelOk := r.modelOk && impl == mans } }, v)
+  | some c =>
+    let sres := match call with | .next => c.next | .advance k => c.advance k
+    let sans := renderSpec sres
+    if impl == sans then
+      let v := if !r.modelOk || impl == mans then Verdict.ok else .diff mans
+      ({ st with run := some { r with it := it', spec := some sres.2, done := implDone,
+                                       modelOk := r.modelOk && impl == mans } }, v)
+    else
+      let c' := match (words impl) with
+        | ["true", v] => match v.toNat? with | some n => resyncSpec sres.2 n | none => sres.2
+        | _ => sres.2
+      ({ st with run := some { r with it := it', spec := some c', done := implDone, modelOk := false } },
+        .propfail clause)
+
+def step (st : St) (op impl : String) : St × Verdict :=
+  match words op with
+  | "index" :: kind :: rest =>
+    let k? : Option LeafKind := if kind == "array" then some .array else if kind == "tree" then some .tree else none
+    match k?, parseLists rest [] with
+    | some k, some lists =>
+      let ix : Index := ⟨k, lists⟩
+      if validB ix then
+        ({ ix := some ix, fuel := ix.total + 1, run := none }, if impl == "ok" then .ok else .diff "ok")
+      else (st, .bad)
+    | _, _ => (st, .bad)
+  | "query" :: rest =>
+    match st.ix, parseQuery rest with
+    | some ix, some (q, []) =>
+      let it := compile st.fuel ix q
+      let spec := if wfB q then some (start (q.denote ix)) else none
+      ({ st with run := some ⟨it, depth q, true, spec, false⟩ }, if impl == "ok" then .ok else .diff "ok")
+    | _, _ => (st, .bad)
+  | ["next"] =>
+    match st.run with
+    | some r => stepCall st r .next impl
+    | none => (st, .bad)
+  | ["adv", k] =>
+    match st.run, k.toNat? with
+    | some r, some k => stepCall st r (.advance k) impl
+    | _, _ => (st, .bad)
+  | _ => (st, .bad)
+
+def family : Family := { σ := St, init := {}, step := step }
+
+end B6.Driver.C06
+
+def main : IO Unit := B6.Driver.run B6.Driver.C06.family
